@@ -172,13 +172,18 @@ def theory_axioms(exprs, max_pairs=60):
                 for j in range(i + 1, len(ground)):
                     y1, y2 = ground[i], ground[j]
                     x1, x2 = y1.arg(0), y2.arg(0)
+                    if mono == "strict_pos":
+                        # strictly increasing on the positive axis only (log): guarded by 0 < x
+                        out += [z3.Implies(z3.And(x1 > 0, x1 <= x2), y1 <= y2), z3.Implies(z3.And(x2 > 0, x2 <= x1), y2 <= y1),
+                                z3.Implies(z3.And(x1 > 0, x1 < x2), y1 < y2), z3.Implies(z3.And(x2 > 0, x2 < x1), y2 < y1)]
+                        continue
                     out += [z3.Implies(x1 <= x2, y1 <= y2), z3.Implies(x2 <= x1, y2 <= y1)]
                     if mono == "strict":
                         out += [z3.Implies(x1 < x2, y1 < y2), z3.Implies(x2 < x1, y2 < y1)]
     return out
 
 
-MONOTONE = {"exp": "strict", "log": None, "tanh": "strict", "sigmoid": "strict", "softplus": "strict", "sqrt": None}
+MONOTONE = {"exp": "strict", "log": "strict_pos", "tanh": "strict", "sigmoid": "strict", "softplus": "strict", "sqrt": None}
 
 
 def _has_var(e):
@@ -502,6 +507,7 @@ class PathState:
             )
         if assume_after:
             self.pc.append(z)
+            self.ghost["goal_facts"] = self.ghost.get("goal_facts", 0) + 1
 
     def oblige_forall(self, name, sorts, fn, hint="sk", using=None):
         """forall-goal, Skolemised."""
